@@ -526,7 +526,8 @@ pub mod inner {
         /// The length of each slice equals [`self.width()`](Self::width).
         pub fn rows(&self) -> impl Iterator<Item = &[T]> {
             self.data
-                .chunks(self.stride as usize)
+                .chunks(self.stride.max(1) as usize)
+                .take(self.dims.1 as usize)
                 .map(|row| &row[..self.dims.0 as usize])
         }
 
